@@ -92,6 +92,8 @@ func main() {
 		total += genCrowd(out, rng, cnt(3, 40))
 		total += genBigQueue(out, rng, cnt(8, 60))
 		total += genQueueRing(out, rng, "battle", cnt(60, 1500))
+		total += genRingEdge(out, rng, "battle", cnt(25, 400), false)
+		total += genRespawnStorm(out, rng, "battle", cnt(300, 10000))
 	case "soak": // not part of any tier: 2.6 million cycles with a 1.5-million-entry queue (see DESIGN.md section 9)
 		total += genSoak(out, rng)
 	case "bigstep":
@@ -111,6 +113,10 @@ func main() {
 			total += genLongWarrior(out, rng, 5000)
 			total += genManyResets(out, rng, 200)
 			total += genExtremes(out, rng, 20000)
+			total += genRespawnStorm(out, rng, "api", 20000)
+			total += genRingEdge(out, rng, "api", 400, true)
+			total += genCounts(out, rng, true)
+			total += genLifeCycleBig(out, rng, 10000)
 			total += genWild(out, rng, 5000)
 		} else {
 			total += genAPI(out, rng, 3, 2000)
@@ -121,6 +127,10 @@ func main() {
 			total += genLongWarrior(out, rng, 300)
 			total += genManyResets(out, rng, 12)
 			total += genExtremes(out, rng, 700)
+			total += genRespawnStorm(out, rng, "api", 600)
+			total += genRingEdge(out, rng, "api", 25, false)
+			total += genCounts(out, rng, false)
+			total += genLifeCycleBig(out, rng, 300)
 			total += genWild(out, rng, 300)
 		}
 	case "config":
